@@ -179,7 +179,7 @@ def harnesses(tier):
 def instrument():
     dq = wd.mod("watchdog.utils.delayed_queue")
     C = dq.DelayedQueue
-    return vsched.instrument(line_modules=[dq], instr_functions=[C.get, C.remove, C.close, C.put])
+    return vsched.instrument(line_modules=[dq], instr_functions=[(C, "get"), (C, "remove"), (C, "close"), (C, "put")])
 
 
 def _vsleep_logged(secs):
